@@ -83,6 +83,19 @@ func c13Run(c *core.Ctx, long bool) {
 	}
 	dt := ps[paramIndex(desc, "DeltaT")][0]
 	vols, areas, levels, minRel, maxRel := tbl("volumes"), tbl("areas"), tbl("levels"), tbl("minRelease"), tbl("maxRelease")
+	// a table that starts at the dead storage instead of at the empty storage: every column is held at its first
+	// value below the first knot by the library today; only the clauses that do not depend on how a table is continued
+	// below its first knot are asserted while the volume is down there
+	tableFrom := 0.0
+	if !long && c.R.Bool(0.15) {
+		tableFrom = vols[n-1] * c.R.Range(0.02, 0.3)
+		for i := range vols {
+			vols[i] += tableFrom
+		}
+		// (areas[0] stays 0 and nothing is released at the first knot: with a surface or a release held below the first
+		// knot the kernel cannot stop the volume from going negative and panics - outside the domain, see DESIGN 9.5)
+		minRel[0], maxRel[0] = 0, 0
+	}
 	vmax := vols[n-1]
 	T := c.R.IntRange(5, 60)
 	if long {
@@ -246,10 +259,16 @@ func c13Run(c *core.Ctx, long bool) {
 	if !core.BitEq(vf, V[T-1]) {
 		c.Violate("final-state", model, fmt.Sprintf("final volume state %v differs from the last reported volume %v", vf, V[T-1]))
 	}
-	if wl := interpTable(vf, vols, levels); !core.RelClose(fs[1], wl, 1e-9, 1e-9) {
+	if tableFrom > 0 {
+		c.Tag("table-starts-above-empty")
+	}
+	if tableFrom > 0 && vf < vols[0] {
+		// below the first knot: no table value to compare with
+	} else if wl := interpTable(vf, vols, levels); !core.RelClose(fs[1], wl, 1e-9, 1e-9) {
 		c.Violate("final-level", model, fmt.Sprintf("final level %v, table value for volume %v is %v", fs[1], vf, wl))
 	}
-	if wa := interpTable(vf, vols, areas); !core.RelClose(fs[2], wa, 1e-9, 1e-9) {
+	if tableFrom > 0 && vf < vols[0] {
+	} else if wa := interpTable(vf, vols, areas); !core.RelClose(fs[2], wa, 1e-9, 1e-9) {
 		c.Violate("final-area", model, fmt.Sprintf("final area %v, table value for volume %v is %v", fs[2], vf, wa))
 	}
 	// ---- sub-step stream
@@ -277,15 +296,17 @@ func c13Run(c *core.Ctx, long bool) {
 		accEvap += petPS * 1e-3 * s.AvgArea * s.Dt
 		// release rules over the volumes traversed (before spill is removed)
 		vEnd := s.Vol1 + s.Spill
+		belowTable := tableFrom > 0 && (s.Vol0 < vols[0] || vEnd < vols[0])
 		minLo, _ := tableRange(s.Vol0, vEnd, vols, minRel)
 		_, maxHi := tableRange(s.Vol0, vEnd, vols, maxRel)
 		rtol := 1e-4 + 1e-5*math.Abs(s.AvgOutflow)
-		if s.AvgOutflow < minLo-rtol || s.AvgOutflow > maxHi+rtol {
+		if !belowTable && (s.AvgOutflow < minLo-rtol || s.AvgOutflow > maxHi+rtol) {
 			c.Violate("release-outside-curves", model, fmt.Sprintf("timestep %d sub-step of %vs: release %v outside [min of minRelease %v, max of maxRelease %v] over volumes %v..%v (demand %v)", ti, s.Dt, s.AvgOutflow, minLo, maxHi, s.Vol0, vEnd, demand))
 		}
 		mn0, mx0 := interpTable(s.Vol0, vols, minRel), interpTable(s.Vol0, vols, maxRel)
 		mn1, mx1 := interpTable(vEnd, vols, minRel), interpTable(vEnd, vols, maxRel)
 		switch {
+		case belowTable:
 		case demand >= math.Max(mn0, mn1) && demand <= math.Min(mx0, mx1):
 			tag("demand-met")
 			if math.Abs(s.AvgOutflow-demand) > rtol {
